@@ -25,7 +25,7 @@ SCRIPTS = {
 }
 
 PAIRS = {
-    "valid_uno": ("atmelavr", "uno", True), "valid_every": ("atmelmegaavr", "nano_every", True),
+    "valid_uno": ("atmelavr", "uno", True), "valid_every": ("atmelmegaavr", "nano_every", True), "valid_hyphen": ("atmelavr", "a-star32U4", True),
     "bad_platform": ("espressif32", "uno", False), "bad_board": ("atmelavr", "not_a_board", False),
     "mismatch": ("atmelavr", "nano_every", False), "mismatch2": ("atmelmegaavr", "uno", False),
 }
@@ -88,7 +88,7 @@ def spec_check(cfg: dict, out: dict) -> list[tuple[str, str]]:
             v.append(("pio-needed-without-upload", "RuntimeError (PlatformIO required) although upload=False"))
             return v
     else:
-        if faults.get("pio") in ("missing", "fail"):
+        if faults.get("pio") in ("missing", "fail", "permission", "oserror"):
             if not (outcome == "raised" and exc == "RuntimeError"):
                 v.append(("missing-pio-not-runtimeerror", f"upload=True with PlatformIO {faults['pio']}: {outcome} {exc}"))
             if writes:
@@ -183,7 +183,7 @@ def main() -> int:
     sd = seed()
     rng = rng_for(PROP, sd)
     fault_axes = {
-        "pio": ["ok", "missing", "fail"], "mkdtemp": ["ok", "oserror"], "write_main": ["ok", "oserror"],
+        "pio": ["ok", "missing", "fail", "permission", "oserror"], "mkdtemp": ["ok", "oserror"], "write_main": ["ok", "oserror"],
         "write_ini": ["ok", "oserror"], "build": ["ok", "fail"], "upload": ["ok", "fail"],
     }
     cases = []
@@ -233,6 +233,23 @@ def main() -> int:
                 rep.violation(f"{label}: {msg}", w, key=key)
         if len(rep.samples) < 4 and out.get("effects"):
             rep.sample({"case": label, "effects": out["effects"][:8], "outcome": out.get("outcome"), "exc": out.get("exc_type")})
+    # ---- histories: the same script path transpiled again after its text changed (one process)
+    hist = [{"script": make_script(SCRIPTS["plain"], "COM3", False, "atmelavr", "uno", 0), "second": make_script(SCRIPTS["servo"], "COM3", False, "atmelavr", "uno", 1),
+             "faults": {}, "platform": "atmelavr", "board": "uno", "port": "COM3", "valid_pair": True, "upload_effective": False, "script_name": "plain->servo",
+             "pair": "valid_uno", "upload_arg": False},
+            {"script": make_script(SCRIPTS["lcd_i2c"], "COM7", False, "atmelmegaavr", "nano_every", 1), "second": make_script(SCRIPTS["plain"], "COM7", False, "atmelmegaavr", "nano_every", 1),
+             "faults": {}, "platform": "atmelmegaavr", "board": "nano_every", "port": "COM7", "valid_pair": True, "upload_effective": False, "script_name": "lcd->plain",
+             "pair": "valid_every", "upload_arg": False}]
+    for cfg, st, out in run_cases(run_child, hist):
+        if st != "ok" or "harness_error" in out:
+            rep.inconclusive_because(f"history child failed: {(out if st != 'ok' else out['harness_error'])[-200:]}")
+            continue
+        rep.case("history:" + cfg["script_name"], True)
+        rep.count("history_cases")
+        sec = out.get("second") or {}
+        if sec.get("ret") != sec.get("expected_cpp") or sec.get("libs_written") != sec.get("expected_libs"):
+            rep.violation(f"history {cfg['script_name']}: the second target() call on the same path (file rewritten) did not transpile the new text "
+                          f"(libs written {sec.get('libs_written')}, needed {sec.get('expected_libs')})", {"script.py": cfg["script"], "second.py": cfg["second"]}, key="history-stale")
     rep.rule = ("product of (platform,board) pairs {valid, unknown platform, unknown board, mismatched} x scripts {no lib, "
                 "servo, parallel LCD, I2C LCD, all, non-ASCII, rejected-by-transpiler} x upload {True, False, default} x "
                 "fault points {pio discovery: ok/missing/non-zero, mkdtemp, write main.cpp, write platformio.ini, build, "
